@@ -50,17 +50,20 @@ CODE_VERSION = json.load(open(os.path.join(SPEC, "code_version.json")))
 
 # replay graphs (Eager): real capacity 20, bursts of Scale events
 REPLAY = {
-    "quick": [dict(NSubs=2, MaxEvents=2, Cap=20, Scale=10, Eager=True),
+    "quick": [dict(NSubs=2, MaxEvents=2, Cap=20, Scale=10, Eager=True, Reorg=True),
               # one subscriber, 42 events: channel (20) + forwarder (1) + queue buffer (20) + overflow list
-              dict(NSubs=1, MaxEvents=2, Cap=20, Scale=21, Eager=True)],
-    "thorough": [dict(NSubs=2, MaxEvents=3, Cap=20, Scale=10, Eager=True),
-                 dict(NSubs=2, MaxEvents=2, Cap=20, Scale=21, Eager=True),
-                 dict(NSubs=3, MaxEvents=1, Cap=20, Scale=21, Eager=True)],
+              dict(NSubs=1, MaxEvents=2, Cap=20, Scale=21, Eager=True, Reorg=False),
+              # one subscriber, three bursts with re-organisations: blocks are disconnected down to (and
+              # below) the tip the subscriber registered at and replaced (Emit, Subscribe, EmitD, Emit)
+              dict(NSubs=1, MaxEvents=3, Cap=20, Scale=10, Eager=True, Reorg=True)],
+    "thorough": [dict(NSubs=2, MaxEvents=3, Cap=20, Scale=10, Eager=True, Reorg=True),
+                 dict(NSubs=2, MaxEvents=2, Cap=20, Scale=21, Eager=True, Reorg=False),
+                 dict(NSubs=3, MaxEvents=1, Cap=20, Scale=21, Eager=True, Reorg=False)],
 }
 # interleaving model (fine-grained): capacity 2, single events
 FINE = {
-    "quick": dict(NSubs=2, MaxEvents=2, Cap=2, Scale=1, Eager=False),
-    "thorough": dict(NSubs=2, MaxEvents=3, Cap=2, Scale=1, Eager=False),
+    "quick": dict(NSubs=2, MaxEvents=2, Cap=2, Scale=1, Eager=False, Reorg=False),
+    "thorough": dict(NSubs=2, MaxEvents=3, Cap=2, Scale=1, Eager=False, Reorg=False),
 }
 FREE = {
     "quick": dict(runs=150, min_events=10, max_events=70),
@@ -93,8 +96,8 @@ def label(act):
     elif op == "Subscribe2":
         s = "Subscribe2(s%d,h%d,s%d,h%d,k%d)" % (act.get("s", 0), act.get("h", 0), act.get("s2", 0),
                                                  act.get("h2", 0), act.get("k", 0))
-    elif op == "Emit":
-        s = "Emit(%d)" % act.get("k", 0)
+    elif op in ("Emit", "EmitD"):
+        s = "%s(%d)" % (op, act.get("k", 0))
     elif op == "Read":
         s = "Read(s%d)" % act.get("s", 0)
     elif op == "Cancel":
@@ -359,7 +362,7 @@ class _Acc:
 class _FreeStats:
     def __init__(self):
         self.runs = self.steps = self.max_events = self.stop = self.cancel = self.over = self.quiesced = 0
-        self.overlap = 0
+        self.overlap = self.reorg_below_reg = 0
 
     def add(self, t):
         self.runs += 1
@@ -372,11 +375,13 @@ class _FreeStats:
         self.over += overflowed(t)
         ops = [s["act"]["op"] for s in t["steps"]]
         self.overlap += any(ops[i] == "Subscribe" and ops[i + 1] == "Subscribe" for i in range(len(ops) - 1))
+        self.reorg_below_reg += "Subscribe" in ops and "EmitD" in ops[ops.index("Subscribe"):]
 
     def summary(self):
         return {"runs": self.runs, "steps": self.steps, "max_events": self.max_events, "runs_with_stop": self.stop,
                 "runs_with_cancel": self.cancel, "runs_overflowing_41_slots": self.over,
-                "runs_with_back_to_back_registrations": self.overlap, "quiesced": self.quiesced}
+                "runs_with_back_to_back_registrations": self.overlap,
+                "runs_with_reorg_after_a_registration": self.reorg_below_reg, "quiesced": self.quiesced}
 
 
 def overflowed(t):
@@ -386,12 +391,12 @@ def overflowed(t):
     for s in t["steps"]:
         a, o = s["act"], s["obs"]
         if a["op"] == "Subscribe" and a["res"] == "ok":
-            reg[a["s"]] = (a["h"], a["k"])
+            reg[a["s"]] = (len(a["bl"]), a["k"])
         if a["op"] == "Subscribe2" and a["res"] == "ok":
-            reg[a["s"]] = (a["h"], a["k"])
-            reg[a["s2"]] = (a["h2"], a["k"])
-        for sid, (h, k) in reg.items():
-            owed = (k - h if h and h < k else 0) + max(0, o["emitted"] - k)
+            reg[a["s"]] = (len(a["bl"]), a["k"])
+            reg[a["s2"]] = (len(a["bl2"]), a["k"])
+        for sid, (nbl, k) in reg.items():
+            owed = nbl + max(0, o["emitted"] - k)
             if o["sub"][sid - 1] == 1 and owed - len(o["recv"][sid - 1]) > 41:
                 return True
     return False
